@@ -429,7 +429,12 @@ func checkC13(rep *Report, pool *DriverPool, c *RCase) {
 		rep.Violate("panic-or-hang", "", fmt.Sprintf("reused: panic=%q hang=%v; fresh: panic=%q", re.Panic, re.Hang, fresh.Panic), c)
 		return
 	}
-	if re.Err != fresh.Err || re.CtorErr != fresh.CtorErr || !bytes.Equal(re.Bytes, fresh.Bytes) || fmt.Sprint(re.After) != fmt.Sprint(fresh.After) || !bytes.Equal(re.Left, fresh.Left) {
+	// what is left in the source is compared whenever the two runs see the same delivery schedule.  In
+	// the same-source history the second stream sits behind the first one in ONE buffered source, so
+	// the buffer refills fall at other offsets of the second stream than in the fresh run: there the
+	// leftover is comparable only after io.EOF (exact consumption), not after an error
+	leftComparable := ctor != "reuse-same" || (fresh.Err == "EOF" && re.Err == "EOF")
+	if re.Err != fresh.Err || re.CtorErr != fresh.CtorErr || !bytes.Equal(re.Bytes, fresh.Bytes) || fmt.Sprint(re.After) != fmt.Sprint(fresh.After) || (leftComparable && !bytes.Equal(re.Left, fresh.Left)) {
 		rep.Violate("reset-differs-from-new", "", fmt.Sprintf("fresh Reader: ctor=%q %d bytes, %s, left %d; after Reset: ctor=%q %d bytes, %s, left %d (first difference at %d)",
 			fresh.CtorErr, len(fresh.Bytes), fresh.Err, len(fresh.Left), re.CtorErr, len(re.Bytes), re.Err, len(re.Left), firstDiff(re.Bytes, fresh.Bytes)), c)
 	}
